@@ -133,6 +133,8 @@ func checkC13(c *Ctx) {
 	checkOrderIndexIntegrity(c, "C13.R9")
 	c.Rule("C13.R10", "terminal timestamps agree: per operation and terminal target state (delivered, dead, canceled) the class of value written to next_run_at / NextRunAt — now, now+delay, zero, unchanged — is the same in the memory store and SQLite; and per operation that can release a lease (expiry sweep, expired-lease conflict of single and batched settle calls) both backends stamp the released message from the same source — now, or the lease deadline")
 	checkTerminalTimeParity(c, "C13.R10")
+	c.Rule("C13.R11", "both backends refuse on the depth they hold now: the memory store counts its table on every enqueue; the SQLite store answers ErrQueueFull only after reading the depth from the database in the same call (the analysis of C12.R6, claimed here because a remembered verdict makes SQLite refuse where memory admits after the same calls)")
+	checkRefusalReadsStoredDepth(c, "C13.R11")
 }
 
 // requestFieldOf: the request field (or Duration parameter) a value derives from, through phis/cells/conversions.
